@@ -483,7 +483,21 @@ def main(tier):
     return common.run_parts("C18", tier, parts, RULE, ASSUMPTIONS, replay_runner)
 
 
+def _guarded(fn):
+    # anything other than a verdict (oracle server died, import problem, ...) is inconclusive, never a violation
+    try:
+        return fn()
+    except SystemExit:
+        raise
+    except BaseException as e:  # noqa
+        import traceback
+
+        traceback.print_exc()
+        print("INCONCLUSIVE property=%s python check crashed: %r" % (os.path.basename(__file__)[:3].upper(), e))
+        return 2
+
+
 if __name__ == "__main__":
     if sys.argv[1] == "replay":
         sys.exit(common.replay_file("C18", sys.argv[2], replay_runner))
-    sys.exit(main(sys.argv[1]))
+    sys.exit(_guarded(lambda: main(sys.argv[1])))
